@@ -331,6 +331,8 @@ class Types:
       top = f
       while top is not None:
         if fn.id in top.nested:
+          if fn.id in getattr(top, 'ambiguous_nested', ()):
+            return None
           return ('func', top.nested[fn.id])
         top = top.outer
       r = self.repo.resolve_dotted(f.module, fn.id)
